@@ -5,7 +5,7 @@
    CloseConnection / RemoveControlConnection / Unregister / KickOld / stale sweep / clock ticks / raw Register /
    raw UpdateAuth / tunnel conversion / transport write failure) under ANY configuration k (connection limits,
    heartbeat timeout); by_client / by_conn are GetControlConnectionByClientID / GetControlConnection. *)
-From TX Require Import Base.Threads Model.Registry Model.RegistryMicro Model.RegistryCloud Proofs.Registry Proofs.RegistryCounts Proofs.RegistryMicro Proofs.RegistryCloud.
+From TX Require Import Base.Threads Model.Registry Model.RegistryMicro Model.RegistryCloud Proofs.Registry Proofs.RegistryCounts Proofs.RegistryMicro Proofs.RegistryCloud Proofs.RegistryOne.
 Open Scope N_scope.
 
 (* (a) looking a client up by id returns nothing or a registered, authenticated connection whose ClientID is that
@@ -185,6 +185,94 @@ Theorem C07_head_reregistration_refuted :
   exists ops x c, by_client (run Head k0 init ops) x = Some c /\ mem c (closed (run Head k0 init ops)) = true.
 Proof. exact head_rereg_refuted. Qed.
 Print Assumptions C07_head_reregistration_refuted.
+
+(* ---- ONE live authenticated control connection per client (Proofs/RegistryOne.v) ----
+   live_as s k c: c is registered, authenticated as client k (k > 0), its transport is open and accepts writes (a transport whose
+   writes fail — BreakWrites — cannot complete a login: its handshake response is not delivered).
+   production_op: the operation set of the server's own call sites — Accept (incl. adapter accepts), control-type Handshake with
+   any auth outcome (incl. re-login), Heartbeat, Tick, Sweep, CloseConnection (incl. adapter read-loop end; cloud-control results
+   are irrelevant: C07_teardown_ignores_cloud_result), Remove, Unregister, Kick, tunnel conversion, write failure, Register of
+   unauthenticated records.  EXCLUDED, exactly as the Go-side predicate `second-live-connection` does: an authenticating
+   tunnel-type handshake, Register of a pre-authenticated record and the raw UpdateAuth API — each legitimately leaves a second
+   authenticated record of a client beside the indexed one (C07_excluded_operations_leave_a_second_record). *)
+Theorem C07_one_live_control_connection_per_client :
+  forall (k : cfg) (ops : list op) (x c1 c2 : N),
+  forallb production_op ops = true ->
+  live_as (run Current k init ops) x c1 -> live_as (run Current k init ops) x c2 ->
+  c1 = c2 /\ by_client (run Current k init ops) x = Some c1.
+Proof. exact one_live_per_client. Qed.
+Print Assumptions C07_one_live_control_connection_per_client.
+
+(* the same for EVERY interleaving of the lock sections (handleHandshake = A | W | B1 | B2 | B3, CloseConnection = C1 | C1b | C2 | C3,
+   every other operation one section) of any number of goroutines running any production operation lists: in every state in which
+   no login is between its auth section and its UpdateAuth section (`quiet`: every started login has returned), each client has
+   at most one live authenticated control connection and it is the one the client id resolves to.  In particular: for every
+   schedule of two logins of one client, once both returned exactly one of them is live (C07_two_overlapping_logins_nonvacuous). *)
+Theorem C07_one_live_control_connection_per_client_all_interleavings :
+  forall (k : cfg) (progs : list (list op)) (sched : list nat) (x c1 c2 : N),
+  Forall (fun p => forallb production_op p = true) progs ->
+  let fin := Threads.run gst lo (fun l sh => mstep k l sh) (start progs) sched in
+  quiet (snd fin) ->
+  live_as (g (fst fin)) x c1 -> live_as (g (fst fin)) x c2 -> c1 = c2 /\ by_client (g (fst fin)) x = Some c1.
+Proof. exact one_live_per_client_all_interleavings. Qed.
+Print Assumptions C07_one_live_control_connection_per_client_all_interleavings.
+
+(* and in EVERY state of every such interleaving (not only quiet ones): a live authenticated connection is the indexed one of
+   its client unless its own login is still between its auth section and its UpdateAuth section *)
+Theorem C07_one_live_invariant_of_every_section :
+  forall (k : cfg) (progs : list (list op)) (sched : list nat),
+  Forall (fun p => forallb production_op p = true) progs ->
+  SJ k (Threads.run gst lo (fun l sh => mstep k l sh) (start progs) sched).
+Proof. exact SJ_all_interleavings. Qed.
+Print Assumptions C07_one_live_invariant_of_every_section.
+
+(* non-vacuity: a production history with re-login, kick, sweep and close; and two goroutines logging in as one client with
+   their sections strictly alternating (both read the index before either writes it): exactly one stays live *)
+Theorem C07_one_live_nonvacuous :
+  forallb production_op prod_demo_ops = true /\
+  live_asb (run Current k0 init prod_demo_ops) 7 2 = true /\ live_asb (run Current k0 init prod_demo_ops) 7 1 = false /\
+  by_client (run Current k0 init prod_demo_ops) 7 = Some 2 /\ by_client (run Current k0 init prod_demo_ops) 8 = None.
+Proof. exact prod_demo. Qed.
+Print Assumptions C07_one_live_nonvacuous.
+
+Theorem C07_two_overlapping_logins_nonvacuous :
+  forallb (fun l => match pend l with None => true | Some _ => false end) (snd two_logins_final) = true /\
+  forallb (fun l => match snd l with [] => true | _ => false end) (snd two_logins_final) = true /\
+  live_asb (g (fst two_logins_final)) 7 1 = false /\ live_asb (g (fst two_logins_final)) 7 2 = true /\
+  by_client (g (fst two_logins_final)) 7 = Some 2 /\ mem 1 (closed (g (fst two_logins_final))) = true /\
+  counts (g (fst two_logins_final)) = (2, 1, 0).
+Proof. exact two_logins_demo. Qed.
+Print Assumptions C07_two_overlapping_logins_nonvacuous.
+
+(* the stale-snapshot order of seeded change C07-13 (index read before the response write, used after it) on the tree as it is
+   (Head2): both logins of client 7 stay live; with the repaired UpdateAuth even that order leaves exactly one *)
+Theorem C07_one_live_stale_snapshot_refuted :
+  live_asb (stale_snapshot_final Head2) 7 1 = true /\ live_asb (stale_snapshot_final Head2) 7 2 = true /\
+  counts (stale_snapshot_final Head2) = (2, 2, 0).
+Proof. exact stale_snapshot_refuted. Qed.
+Print Assumptions C07_one_live_stale_snapshot_refuted.
+
+(* the tree as it is (Head2), at lock-section granularity: GetByClientID / Remove(old) / UpdateAuth are three critical sections;
+   when both logins read the index before either writes it, neither evicts the other (reproduced on the real code by a free-running
+   contention loop: known finding concurrent-logins-both-survive; repaired by fixes/C07-updateauth-evicts-atomically.diff) *)
+Theorem C07_one_live_head_lock_section_race_refuted :
+  live_asb (b1_race_final Head2) 7 1 = true /\ live_asb (b1_race_final Head2) 7 2 = true /\ by_client (b1_race_final Head2) 7 = Some 2.
+Proof. exact head_lock_section_race_refuted. Qed.
+Print Assumptions C07_one_live_head_lock_section_race_refuted.
+
+Theorem C07_one_live_repaired_orders :
+  (live_asb (stale_snapshot_final Current) 7 1 = true /\ live_asb (stale_snapshot_final Current) 7 2 = false /\
+   by_client (stale_snapshot_final Current) 7 = Some 1 /\ mem 2 (closed (stale_snapshot_final Current)) = true) /\
+  (live_asb (b1_race_final Current) 7 1 = false /\ live_asb (b1_race_final Current) 7 2 = true /\ by_client (b1_race_final Current) 7 = Some 2).
+Proof. exact (conj stale_snapshot_repaired lock_section_race_repaired). Qed.
+Print Assumptions C07_one_live_repaired_orders.
+
+(* what the excluded operations do *)
+Theorem C07_excluded_operations_leave_a_second_record :
+  let s := run Current k0 init [Accept 1; Accept 2; Handshake 1 0 7 true; Handshake 2 0 7 false] in
+  live_asb s 7 1 = true /\ live_asb s 7 2 = true /\ by_client s 7 = Some 1.
+Proof. exact excluded_ops_leave_second_record. Qed.
+Print Assumptions C07_excluded_operations_leave_a_second_record.
 
 (* the stale sweep never un-indexes a fresh connection: in every reachable state, a registered connection whose last activity is
    within the heartbeat timeout and which is the indexed connection of its client is still registered and still the answer for
